@@ -51,7 +51,7 @@ def folder():
             import xlsxwriter
 
             odf.write_ods(os.path.join(base, name + ".ods"), [table], {})
-            workbook = xlsxwriter.Workbook(os.path.join(base, name + ".xlsx"))
+            workbook = harness.new_workbook(os.path.join(base, name + ".xlsx"))
             sheet = workbook.add_worksheet()
             for y, row in enumerate(table):
                 for x, cell in enumerate(row):
